@@ -33,6 +33,11 @@ is_list = z3.Function("is_exact_list", I, B)
 is_tuple = z3.Function("is_exact_tuple", I, B)
 seq_len = z3.Function("seq_len", I, I)                  # Py_SIZE of a list / tuple
 item = z3.Function("item", I, I, I)                     # identity of element i of a list / tuple
+exact_type = z3.Function("exact_type_id", I, I)           # identity of Py_TYPE(o) among the builtin types tested with Py*_CheckExact
+TYPE_IDS = {"PyLong_Type": 1, "PyFloat_Type": 2, "PyUnicode_Type": 3, "PyBytes_Type": 4, "PyByteArray_Type": 5, "PyList_Type": 6,
+            "PyTuple_Type": 7, "PyDict_Type": 8, "PySet_Type": 9, "PyFrozenSet_Type": 10, "PyBool_Type": 11}
+richcmp_obj = z3.Function("richcmp_obj", I, I, I, I)        # PyObject_RichCompare(a, b, op): CPython's result object (0 = NULL)
+truth_of = z3.Function("truth_of", I, I)                    # PyObject_IsTrue(x): 1 / 0 / -1
 pow2u = z3.Function("pow2", I, I)          # 2**n for n beyond what the C code computes itself
 generic = z3.Function("generic_result", I, I, I, I, I, B)   # generic_result(opcode, a, b, c, r): r = CPython's own result
 
@@ -137,6 +142,9 @@ class CExecPyObj(CExecL3):
             if path == "long_value.ob_digit":
                 self.use_rep(st, o)
                 return ("mem", Ptr(node_type(n), ("pydigits", o), z3.IntVal(0)))
+            if path == "ob_fval":
+                self.assumptions.add("PyFloat_AS_DOUBLE(o) (ob_fval) is the value of the float object")
+                return ("const", CV(node_type(n), fval(o)))
             if path == "ob_item":
                 # PyListObject.ob_item (PyObject **) / PyTupleObject.ob_item (PyObject *[1]): the element array
                 kind = "mem" if node_type(n).kind == "array" else "const"
@@ -182,10 +190,15 @@ class CExecPyObj(CExecL3):
             oid = self.oid(o)
             tn = t.obj if isinstance(t, Ptr) else None
             st.path.append(z3.Not(z3.And(is_long(oid), is_float(oid))))      # an object has one exact type
+            # Py_TYPE(o) is one type: the exact-type predicates are views of one function
+            st.path.append(z3.And(is_long(oid) == (exact_type(oid) == TYPE_IDS["PyLong_Type"]),
+                                  is_float(oid) == (exact_type(oid) == TYPE_IDS["PyFloat_Type"])))
             if tn == "global:PyLong_Type":
                 return from_bool(is_long(oid), ty)
             if tn == "global:PyFloat_Type":
                 return from_bool(is_float(oid), ty)
+            if tn and tn.startswith("global:") and tn[7:] in TYPE_IDS:
+                return from_bool(exact_type(oid) == TYPE_IDS[tn[7:]], ty)
             raise OutOfSubset("Py_IS_TYPE against %s" % tn)
         if name in ("PyList_GET_SIZE", "PyTuple_GET_SIZE", "Py_SIZE"):
             o = self.oid(self.ev(st, argn[0]))
@@ -262,6 +275,42 @@ class CExecPyObj(CExecL3):
             # pow2 is the function n -> 2**n: it agrees with the closed form on the range the closed form covers
             st.path.append(z3.Implies(z3.And(nb >= 0, nb <= 64), pow2u(nb) == _S.pow2(nb)))
             return r
+        if name == "PyFloat_AS_DOUBLE":
+            o = self.oid(self.ev(st, argn[0]))
+            self.oblige(st, "pre", "PyFloat_AS_DOUBLE.argument_is_a_float", is_float(o), n)
+            self.assumptions.add("PyFloat_AS_DOUBLE(o) (ob_fval) is the value of the float object")
+            return CV(ty, fval(o))
+        if name == "PyObject_RichCompare":
+            a, b = self.oid(self.ev(st, argn[0])), self.oid(self.ev(st, argn[1]))
+            opc = self.ev(st, argn[2])
+            rid = richcmp_obj(a, b, opc.t)
+            st.path.append(rid >= 0)          # 0: NULL (an exception was raised by CPython's comparison)
+            e2 = self.fresh("err_after_richcmp")
+            st.path.append(z3.Implies(rid >= 1, e2 == st.err))
+            st.err = e2
+            self.assumptions.add("PyObject_RichCompare(a, b, op) is CPython's own comparison (its result object, or NULL with an exception)")
+            return Ptr(ty, "pyobj", rid)
+        if name == "__Pyx_PyObject_IsTrueAndDecref":
+            x = self.oid(self.ev(st, argn[0]))
+            r = self.fresh("istrue")
+            st.path.append(z3.And(r >= -1, r <= 1, r == truth_of(x), z3.Implies(x == 0, r == -1)))
+            e2 = self.fresh("err_after_istrue")
+            st.path.append(z3.Implies(r >= 0, e2 == st.err))
+            st.err = e2
+            self.assumptions.add("__Pyx_PyObject_IsTrueAndDecref(x) is PyObject_IsTrue(x) (-1 for NULL / on error)")
+            return CV(ty, r)
+        if name in ("__Pyx_PyObject_RichCompareBool", "PyObject_RichCompareBool"):
+            a, b = self.oid(self.ev(st, argn[0])), self.oid(self.ev(st, argn[1]))
+            opc = self.ev(st, argn[2])
+            r = self.fresh("richcmpbool")
+            st.path.append(z3.And(r >= -1, r <= 1))
+            st.path.append(generic(z3.IntVal(OPCODES["richcmp"]), a, b, opc.t, r))
+            # may raise: the error indicator after the call is CPython's business
+            e2 = self.fresh("err_after_richcmp")
+            st.path.append(z3.Implies(r >= 0, e2 == st.err))
+            st.err = e2
+            self.assumptions.add("calls into CPython's generic protocol (PyNumber_*, PyObject_*) return CPython's own result")
+            return CV(ty, r)
         if name == "__Pyx_IgnoreGivenException":
             for a in argn:
                 self.ev(st, a)
